@@ -22,10 +22,15 @@ echo "suite_rc=$suite demo_clean_rc=$clean demo_patched_rc=$patched"
 R=/repo
 if [ -n "${SEED_SCRATCH:-}" ]; then R=$S; else git -C /repo apply $src/patch.diff || { echo "git apply failed"; exit 1; }; fi
 caught=""
+# the 20 property checks are independent: run them 6 at a time, each into its own log
+L=/tmp/seedchk-$$; rm -rf $L; mkdir -p $L
+VC=${VCHECK:-/verif/bin/vcheck}
+jq -r '.checks[].property_id' /verif/MANIFEST.json | xargs -P 6 -I{} sh -c "$VC -property {} -no-evidence -repo $R > $L/{}.out 2>&1; echo \$? > $L/{}.rc"
 for p in $(jq -r '.checks[].property_id' /verif/MANIFEST.json); do
-  out=$(/verif/bin/vcheck -property $p -no-evidence -repo $R 2>&1); rc=$?
-  if [ $rc -ne 0 ]; then caught="$caught $p"; echo "--- $p rc=$rc"; echo "$out" | grep -B2 "^VIOLATION" | grep -v "^VIOLATION" | head -6 | cut -c1-260; fi
+  rc=$(cat $L/$p.rc 2>/dev/null || echo 2)
+  if [ "$rc" != "0" ]; then caught="$caught $p"; echo "--- $p rc=$rc"; grep -B2 "^VIOLATION" $L/$p.out | grep -v "^VIOLATION" | head -6 | cut -c1-260; fi
 done
+rm -rf $L
 [ -n "${SEED_SCRATCH:-}" ] || git -C /repo checkout -- .
 echo "caught_by:${caught:- NONE}"
 d=/verif/seeded/$id; mkdir -p $d; if [ "$src" != "$d" ]; then cp $src/patch.diff $d/; cp -r $src/demo_test.go $src/demo $d/ 2>/dev/null; cp $src/README.md $d/AGENT_README.md 2>/dev/null; fi
